@@ -86,6 +86,11 @@ def counters(ctx, P, rule="IBD-COUNTERS"):
     ctx.ob(rule, "filter|between", "self->finding_between" in conds and "(self->sample_set_id[a] != self->sample_set_id[b])" in P.tus["tables"].src(fn.body).replace("\n", " ")
            or "self->sample_set_id[a] != self->sample_set_id[b]" in " ".join(P.tus["tables"].src(fn.body).split()), tu.loc(fn.node),
            "between-sets mode keeps only pairs from different sets")
+    # the pre-filter of enqueue_segment and the final filter use the same span expression (so that rounding cannot make them disagree)
+    enq = P.need("tsk_ibd_finder_enqueue_segment", "tables")
+    ec = [xstr(x.kids[0]) for x in walk(enq.body) if x.k == "IfStmt" and "min_span" in estr(x.kids[0])]
+    ctx.ob(rule, "enqueue|min_span", ec == ["((right - left) > self->min_span)"], tu.loc(enq.node),
+           "ancestry shorter than min_span is not queued: %s (the complement of the final filter `(right - left) <= min_span`)" % ec)
     # max_time filter in run
     run = P.need("tsk_ibd_finder_run", "tables")
     src = " ".join(tu.src(run.body).split())
@@ -279,7 +284,13 @@ def pair_keys(ctx, P, rule="IBD-KEY"):
         for c in calls(g.body):
             if callee(c) == "pair_to_integer":
                 sites.append((g, c))
-    ctx.need(len(sites) >= 2, "pair_to_integer call sites (store and lookup)")
+    for must in ("tsk_identity_segments_update_pair", "tsk_identity_segments_get_key"):
+        has = any(g.name == must for g, c in sites)
+        ctx.ob(rule, "uses-key-function|%s" % must, has, tu.loc(P.need(must, "tables").node),
+               "%s derives the key with pair_to_integer" % must if has else
+               "%s computes the pair key by hand instead of calling pair_to_integer: the ordering of the pair is not applied" % must)
+    if len(sites) < 2:
+        return
     if swaps:
         ctx.ob(rule, "normalised-in-callee", True, tu.loc(swaps[0]), "pair_to_integer swaps its arguments when a > b")
         for g, c in sites:
